@@ -466,7 +466,10 @@ func (hs *HandshakeState) readPQServerAuth(b []byte) (int, error) {
 	hs.duplex.Squeeze(hs.macBuf[:])
 	logrus.Debugf("client: calculated sa mac: %x", hs.macBuf)
 	if !bytes.Equal(hs.macBuf[:], b[:MacLen]) {
+		// This MAC covers DH(es): it is the server's proof that it holds the
+		// private key named in its certificate.
 		logrus.Debugf("client: expected sa mac %x, got %x", hs.macBuf, b[:MacLen])
+		return 0, ErrInvalidMessage
 	}
 	// b = b[MacLen:]
 
